@@ -363,7 +363,7 @@ def check_results(c, item):
                 q.py_add_reaction(q.py_get_next_queue_time() + 1.0, 1, 4.0); q.py_add_reaction(q.py_get_next_queue_time(), 2, 1.0)
             q2 = cp(q)
             a, b = drain_queue(q, 3, 4), drain_queue(q2, 3, 4)
-        elif what in ('VolumeCellState', 'DelayVolumeCellState', 'LineageVolumeCellState', 'LineageVolumeCellState-time0'):
+        elif what in ('VolumeCellState', 'DelayVolumeCellState', 'LineageVolumeCellState', 'LineageVolumeCellState-time0', 'LineageVolumeCellState-dead'):
             if what == 'VolumeCellState':
                 o = VolumeCellState(time=1.5, state=np.array([1.0, 2.0, 3.0]), volume=2.5)
             elif what == 'DelayVolumeCellState':
@@ -373,6 +373,8 @@ def check_results(c, item):
                     q.py_advance_time()
                 q.py_add_reaction(q.py_get_next_queue_time() + 0.5, 0, 2.0); q.py_add_reaction(q.py_get_next_queue_time(), 1, 1.0)
                 o = DelayVolumeCellState(time=1.5, state=np.array([1.0, 2.0, 3.0]), volume=2.5, queue=q)
+            elif what == 'LineageVolumeCellState-dead':
+                o = LineageVolumeCellState(v0=0.9, t0=0.25, state=np.array([5.0, 0.0, 1.0]), volume=1.7, time=2.0, divided=-1, dead=2)
             elif what == 'LineageVolumeCellState-time0':
                 # current time exactly 0 with an earlier birth time (a burn-in that ends at t = 0)
                 # (set through the setters, as the simulators do: the object that is copied must itself be at t = 0)
@@ -388,6 +390,13 @@ def check_results(c, item):
             if what.startswith('LineageVolumeCellState'):
                 a += [o.py_get_initial_volume(), o.py_get_initial_time()]
                 b += [o2.py_get_initial_volume(), o2.py_get_initial_time()]
+                # the fate flags have no getters: read them from the state the object hands to pickle (divided, dead)
+                a += [int(v_) for v_ in o.__reduce__()[1][5:7]]
+                b += [int(v_) for v_ in o2.__reduce__()[1][5:7]]
+                o3 = cp(o2)                                   # a copy of the copy as well (an odd/even number of generations)
+                b2 = [o3.py_get_time(), o3.py_get_volume(), arr(o3.py_get_state()), o3.py_get_initial_volume(), o3.py_get_initial_time()] + [int(v_) for v_ in o3.__reduce__()[1][5:7]]
+                if diff(a, b2) and not diff(a, b):
+                    b = b2
             if what == 'DelayVolumeCellState':
                 a.append(drain_queue(o.py_get_delay_queue(), 2, 3)); b.append(drain_queue(o2.py_get_delay_queue(), 2, 3))
             # independence
@@ -456,7 +465,7 @@ def run(ctx):
             items.append(('lineage', name, h))
     pmap(check_model, items, ctx, nshards=256)
     res = [(w, how) for w in ('SSAResult', 'VolumeSSAResult', 'DelaySSAResult', 'DeterministicResult', 'VolumeCellState', 'DelayVolumeCellState',
-                              'LineageVolumeCellState', 'LineageVolumeCellState-time0', 'ArrayDelayQueue', 'ArrayDelayQueue-advanced', 'Schnitz', 'Lineage', 'ExperimentalLineage', 'SimulatedLineage') for how in ('pickle', 'deepcopy')]
+                              'LineageVolumeCellState', 'LineageVolumeCellState-time0', 'LineageVolumeCellState-dead', 'ArrayDelayQueue', 'ArrayDelayQueue-advanced', 'Schnitz', 'Lineage', 'ExperimentalLineage', 'SimulatedLineage') for how in ('pickle', 'deepcopy')]
     pmap(check_results, res, ctx, nshards=len(res))
     ctx.bounds = dict(history_length=L, plain_models=len(plain), lineage_models=len(lin), histories=len(hists), cases=len(items), result_objects=len(res))
     ctx.rule = ('E2+E3: one plain model per member type (every propensity class, two general rates that together contain every Term node class, '
